@@ -35,6 +35,8 @@ case "$kind" in
   unknown) printf 'unknown\n';;
   timeout) sleep "$(cat "$dir/timeout.sleep" 2>/dev/null || echo 3)"; printf 'unsat\n';;
   garbage) printf 'Segmentation fault (core dumped) lol\n';;
+  binary) printf 'sat\n\377\376\200(model\n';;   # output that is not valid UTF-8: the solving thread fails with an exception
+  satbadmodel) printf 'sat\n(\n (define-fun |p_x_uint256_0000000_00| () (_ BitVec 256) #xZZ)\n';;  # sat, but the model cannot be parsed
   empty) ;;
   exit3) exit 3;;
   kill) kill -9 $$;;
